@@ -210,6 +210,38 @@ def p_restore(pid):
     return c
 
 
+def _shared_names(default_full):
+    """the module-level name tuples of andes.shared as the working tree defines them (read natively at run time)"""
+    try:
+        import andes.shared as SH
+        return {'jac_full_names': tuple(SH.jac_full_names), 'jac_names': tuple(SH.jac_names), 'jac_types': tuple(SH.jac_types)}
+    except Exception:      # noqa
+        return {'jac_full_names': tuple(default_full)}
+
+
+def replay_jactriplet(obligation=None, model=None, meta=None):
+    """native run of the real JacTriplet: entries appended under every full Jacobian name (variable and constant parts), then cleared:
+    every list of every name is empty afterwards, and appending again files one entry per name"""
+    import numpy as np
+    from andes.core.common import JacTriplet
+    full = ('fx', 'fxc', 'fy', 'fyc', 'gx', 'gxc', 'gy', 'gyc')
+    t = JacTriplet()
+    for rnd in range(3):
+        for k, name in enumerate(full):
+            t.append_ijv(name, np.array([k]), np.array([k + 1]), np.array([float(k)]) if name.endswith('c') else np.array([0.0]))
+        sizes = {name: (len(t.ijac[name]), len(t.jjac[name]), len(t.vjac[name])) for name in full}
+        if any(v != (1, 1, 1) for v in sizes.values()):
+            return {'confirmed': True, 'inputs': {'sequence': 'append one entry under each of %r, clear_ijv(), repeated; round %d' % (list(full), rnd + 1)},
+                    'observed': 'entries stored per name (rows, cols, values): %r; after a clear each name holds exactly the one entry appended since' % (sizes,),
+                    'native_cmd': 'JacTriplet.append_ijv / clear_ijv'}
+        t.clear_ijv()
+        left = {name: len(t.ijac[name]) + len(t.jjac[name]) + len(t.vjac[name]) for name in full}
+        if any(left.values()):
+            return {'confirmed': True, 'inputs': {'sequence': 'append one entry under each of %r, then clear_ijv()' % (list(full),)},
+                    'observed': 'entries left after clear_ijv(): %r' % ({k: v for k, v in left.items() if v},), 'native_cmd': 'JacTriplet.append_ijv / clear_ijv'}
+    return {'confirmed': False, 'tried': 3}
+
+
 def jactriplet(pid):
     """JacTriplet.append_ijv / clear_ijv / ijv / zip_ijv: rows, columns and values are filed under their own lists of the named
     Jacobian, in lockstep."""
@@ -244,7 +276,7 @@ def jactriplet(pid):
             ok = ok and all(j in d and isinstance(d[j], Ref) and new.st.content(d[j]).items == [] for j in JAC_FULL)
         return z3.BoolVal(bool(ok))
     c2 = Contract(FC, 'JacTriplet.clear_ijv', pid=pid, params={'self': TObj()}, schema={},
-                  calls={'list': lambda ex, st, a, k, n: st.new_ref(ListC([]), 'l')}, globals_={'jac_full_names': JAC_FULL},
+                  calls={'list': lambda ex, st, a, k, n: st.new_ref(ListC([]), 'l')}, globals_=_shared_names(JAC_FULL),
                   ensures=[('every-list-of-every-full-jacobian-name-is-emptied', post_clear)], modifies=['self.*'])
     c2.pre_state = pre_state
     out.append(c2)
